@@ -772,6 +772,11 @@ def r10_option_unfold(toks, stats, which=("map_or", "map", "map_or_else")):
                 if len(ps) != 1: raise ExtractError("R10: map_or closure arity")
                 arm = T("Some(") + ps[0] + T(") =>") + [Tok("o", "{", None, 0, True)] + body + [Tok("c", "}", None, 0, True)] + T(",")
             new = T("(match") + recv + T("{") + arm + T("None =>") + d + T("})")
+        elif name == "unwrap_or_else":
+            # E.unwrap_or_else(|| B) -> (match E { Some(vx_o) => vx_o, None => { B } })
+            cd = closure_parts(args[0]) if len(args) == 1 else None
+            if cd is None or len(cd[0]) != 0: raise ExtractError("R10: Option::unwrap_or_else needs a closure literal without parameters")
+            new = T("(match") + recv + T("{ Some(vx_o) => vx_o, None =>") + [Tok("o", "{", None, 0, True)] + cd[1] + [Tok("c", "}", None, 0, True)] + T("})")
         elif name == "map_or_else":
             # E.map_or_else(|| D, |x| B) -> (match E { Some(x) => { B }, None => { D } })
             if len(args) != 2: raise ExtractError("R10: map_or_else arity")
